@@ -104,6 +104,10 @@ def mutate_expectation(case):
         # history cases (cachehist / attrhist): corrupt what the model says is observable after the last determined operation
         for op in reversed(c["ops"]):
             if isinstance(op.get("obs"), dict) and len(op["obs"].get("loads") or []) == 2:
+                if op.get("anyserved"):
+                    # (what this call serves is not compared: corrupt the cached names instead)
+                    op["obs"]["cached"] = list(op["obs"].get("cached") or []) + ["zz"]
+                    return c
                 op["obs"]["served"] = op["obs"].get("served", 0) + 5
                 return c
             if "want" in op and not op.get("any") and not op.get("flood"):
